@@ -364,6 +364,14 @@ impl C20 {
     // stepping walks the record list
     let q = p as i64 + n;
     let exp = if q >= 0 && (q as usize) < recs.len() { Some((recs[q as usize].y, recs[q as usize].m, recs[q as usize].d)) } else { None };
+    // ... and the record reached by stepping is the record itself (name, work flag, text), not just its date
+    if let (Some(_), Ok(Some((txt, work, name)))) = (exp, guard(|| h.next(n as isize).map(|x| (x.to_string(), x.is_work(), x.get_name())))) {
+      let rq = &recs[q as usize];
+      let by_date = guard(|| tyme4rs::tyme::holiday::LegalHoliday::from_ymd(rq.y as isize, rq.m as usize, rq.d as usize).map(|x| x.to_string())).ok().flatten();
+      if work != rq.work || name != LEGAL_HOLIDAY_NAMES[rq.name] || Some(txt.clone()) != by_date {
+        out.fail(env, viol("holiday", "stepped_record_fields", case, &k, format!("{} .next({})", desc, n), format!("{:?} work={} {}", by_date, rq.work, LEGAL_HOLIDAY_NAMES[rq.name]), format!("{} work={} {}", txt, work, name)));
+      }
+    }
     match guard(|| h.next(n as isize).map(|x| ymd(&x.get_day()))) {
       Ok(g) => {
         if g != exp {
